@@ -94,6 +94,18 @@ func C20(c *Ctx) {
 					}
 					if !ir.IsFixture(f) {
 						nGFP++
+						// (a paginator shared by several queries stands for one site per query that uses it)
+						isQuery := false
+						for _, q := range w.Roots["QUERY"] {
+							if q == f {
+								isQuery = true
+							}
+						}
+						if !isQuery {
+							if k := len(w.Callers(f)); k > 1 {
+								nGFP += k - 1
+							}
+						}
 					}
 					genericPaginateCallback(c, f, call, cb)
 					if !ir.IsFixture(f) {
@@ -584,8 +596,25 @@ func itemIdentity(c *Ctx, parent, cb *ssa.Function, ret *ssa.Return, rk string) 
 			}
 			ce := w.ResolveCaptured(w.ExprOf(args[idx]))
 			inst := map[string]*ir.Expr{}
+			// the verdict of the handed-in function that the callback's hit stands under (`_, _, keep := locate(key); if !keep { return nil, nil }`)
+			for _, b := range cb.Blocks {
+				iff, ok := b.Instrs[len(b.Instrs)-1].(*ssa.If)
+				if !ok {
+					continue
+				}
+				ce2 := w.ExprOf(iff.Cond)
+				keepEdge := 0
+				if ce2.Op == "un" && ce2.Name == "!" && len(ce2.Args) == 1 {
+					ce2, keepEdge = ce2.Args[0], 1
+				}
+				if ce2.Op == "res" && len(ce2.Args) == 1 && ce2.Args[0].Op == "call" && ce2.Args[0].Name == "dyn" && len(ce2.Args[0].Args) > 0 && ce2.Args[0].Args[0].Op == "free" && ce2.Args[0].Args[0].Name == fvName {
+					if !ir.Reaches(cb, ret, ir.Cut{Edges: map[[2]int]bool{{b.Index, keepEdge}: true}}) {
+						inst["@keep"] = w.ExpandKeep(ir.Subst(ce2, map[string]*ir.Expr{"free:" + fvName: ce}), 4, isStreamKeyParser)
+					}
+				}
+			}
 			for k, fv := range fields {
-				inst[k] = w.Expand(ir.Subst(fv, map[string]*ir.Expr{"free:" + fvName: ce}), 4)
+				inst[k] = w.ExpandKeep(ir.Subst(fv, map[string]*ir.Expr{"free:" + fvName: ce}), 4, isStreamKeyParser)
 			}
 			n++
 			itemIdentityFields(c, ed.From, cb, ret, rk+"|via "+fn(ed.From), inst)
@@ -649,9 +678,30 @@ func itemIdentityFields(c *Ctx, parent, cb *ssa.Function, ret *ssa.Return, rk st
 			why = "compared for equality with the parsed address"
 		}
 		if !okID {
+			// (b') the callback gives up unless the function it asks (handed in by this caller) says keep, and that function
+			// says keep only when the parsed address equals this one: `return receiver, sender, s.Equals(sender)`
+			if keep, ok := fields["@keep"]; ok {
+				k := w.ExpandKeep(keep, 3, isStreamKeyParser)
+				if os.Getenv("MCDEBUG") == "keep" {
+					fmt.Fprintln(os.Stderr, "keep", rk, party, k.Op, k.Name, len(k.Args), "addr", addr.String()); if len(k.Args) == 2 { fmt.Fprintln(os.Stderr, "  parsed", isParsed(k.Args[0]), isParsed(k.Args[1]), k.Args[1].String() == addr.String()) }
+				}
+				if (k.Op == "call" || k.Op == "invoke") && strings.HasSuffix(k.Name, "AccAddress).Equals") && len(k.Args) == 2 {
+					a, b := k.Args[0], k.Args[1]
+					if isParsed(a) && b.String() == addr.String() || isParsed(b) && a.String() == addr.String() {
+						okID = true
+					}
+				}
+			}
+		}
+		if !okID {
 			// (c) the prefix store iterated was opened with this address
 			bound := freeVarBinding(c, parent, cb, addr)
 			for _, ps := range prefixStores(c, parent) {
+				// (the address as the function that opened the store spells it, a captured variable resolved to what it was given)
+				if as := addr.String(); w.Expand(w.ResolveCaptured(w.Expand(ps, 2)), 2).Any(func(z *ir.Expr) bool { return z.String() == as }) {
+					okID = true
+					why = "the address the iterated prefix store was opened with"
+				}
 				if w.Expand(ps, 1).Any(func(z *ir.Expr) bool {
 					// the same value, or the very variable the closure captured
 					return bound != "" && z.String() == bound || addr.Op == "free" && z.Op == "captured" && z.Name == addr.Name
@@ -876,7 +926,41 @@ func filterComplete(c *Ctx, site *ssa.Call, cbv ssa.Value, storeIdx int, generic
 		}
 	}
 	if req == nil {
-		return 0
+		// the paginator is shared: the callback asks a function its enclosing function was handed. The filters then live in
+		// the callers' functions; their completeness is not decided here (reported as such, per query and filter field)
+		n := 0
+		if host := mc.Parent(); host != nil {
+			for _, ed := range w.Callers(host) {
+				q := ed.From
+				if w.IsGenerated(q) || ir.IsFixture(q) {
+					continue
+				}
+				for _, pr := range q.Params {
+					st, ok := ptrElem(pr.Type()).Underlying().(*types.Struct)
+					if !ok {
+						continue
+					}
+					hasPg := false
+					for i := 0; i < st.NumFields(); i++ {
+						if st.Field(i).Name() == "Pagination" {
+							hasPg = true
+						}
+					}
+					if !hasPg {
+						continue
+					}
+					for i := 0; i < st.NumFields(); i++ {
+						F := st.Field(i).Name()
+						if F == "Pagination" || strings.HasPrefix(F, "XXX_") {
+							continue
+						}
+						n++
+						c.R.Undecided("A12.filter-complete", fn(q)+"|"+F, pos(c, site), "the filter of a query whose paginator is shared through a function-typed parameter is judged where it is applied", "the callback delegates to a function handed in by "+fn(q))
+					}
+				}
+			}
+		}
+		return n
 	}
 	itemNames := map[string]bool{}
 	for i, p := range cb.Params {
